@@ -134,24 +134,29 @@ Definition apply_assertion (ctx:db) (a:assertion) (stk:list stmt) : option (list
       end
   end.
 
-(** ---- label lookup: hypotheses active for the target, then earlier assertions with their own context *)
-Inductive ref := RHyp (s:stmt) | RAssert (ctx:db) (a:assertion).
+(** ---- label lookup: hypotheses active for the target, then earlier statements with their own context *)
+Definition item_label (it:item) : label :=
+  match it with IFloat l _ _ => l | IAx a | IProv a _ _ => a_label a end.
 
-Fixpoint lookup_label (pre:db) (seen:db) (l:label) : option ref :=
-  (* [seen] = items before [pre]'s head, oldest first *)
-  match pre with
+(** first item carrying the label, with its position *)
+Fixpoint find_item (d:db) (l:label) : option (nat * item) :=
+  match d with
   | [] => None
-  | it::r =>
-      match it with
-      | IFloat l' tc v => if label_eqb l l' then Some (RHyp (tc, [TVar v])) else lookup_label r (seen ++ [it]) l
-      | IAx a | IProv a _ _ => if label_eqb l (a_label a) then Some (RAssert seen a) else lookup_label r (seen ++ [it]) l
-      end
+  | it::r => if label_eqb l (item_label it) then Some (O, it)
+             else match find_item r l with Some (i, x) => Some (S i, x) | None => None end
   end.
+
+Inductive ref := RHyp (s:stmt) | RAssert (ctx:db) (a:assertion).
 
 Definition lookup_ref (pre:db) (tgt:assertion) (l:label) : option ref :=
   match find (fun e => label_eqb l (fst e)) (a_ess tgt) with
   | Some e => Some (RHyp (snd e))
-  | None => lookup_label pre [] l
+  | None =>
+      match find_item pre l with
+      | Some (_, IFloat _ tc v) => Some (RHyp (tc, [TVar v]))
+      | Some (i, IAx a) | Some (i, IProv a _ _) => Some (RAssert (firstn i pre) a)
+      | None => None
+      end
   end.
 
 Definition mm_step (pre:db) (tgt:assertion) (labels:list label) (n:N) (sh:list stmt * list stmt)
